@@ -292,6 +292,16 @@ Definition pax_apply1 (h : hdr) (kv : bytes * bytes) : hdr :=
 Definition pax_apply (recs : pax_recs) (h : hdr) : hdr := fold_left pax_apply1 recs h.
 
 
+(* member path relative to the original dst: relpath(name, basename(src)), prefixed by <base>/ once dst has
+   been rebound to dst/<base> *)
+Definition relp (reb : bool) (base name : bytes) : option bytes :=
+  if reb then match rel_under base name with
+              | Some [] => Some base
+              | Some p => Some (base ++ 47 :: p)
+              | None => None
+              end
+  else rel_under base name.
+
 Inductive outcome := Done | ReadError | Hang | Unsupported.
 
 Section Parser.
@@ -434,24 +444,31 @@ Section Parser.
              end
     end.
 
-  (* one member through extract_tar_stream *)
-  Definition extract_member (fuel : nat) (base : bytes) (bufsz : option N) (h : hdr) (od : N)
+  (* one member through extract_tar_stream.  [reb] = dst has been rebound to dst/<basename(src)> (since /repo
+     1583bc4: a directory root member extracted into an existing directory); tree paths stay relative to the
+     ORIGINAL dst, so after the rebind the current dst is the entry [base] and member paths get that prefix *)
+  Definition extract_member_g (reb : bool) (fuel : nat) (base : bytes) (bufsz : option N) (h : hdr) (od : N)
              (r : rst) (t : tree) : outcome * tree * rst :=
     let copybs := match bufsz with Some 0 => 16384 | Some b => b | None => 16384 end in
-    if t_isdir [] t && bytes_eqb (h_name h) base then
+    if t_isdir (if reb then base else []) t && bytes_eqb (h_name h) base then
+      if reb then (Unsupported, t, r)       (* a second root member: nested rebind, outside the model *) else
       (* tar.extract(member, dst): target dst/<name> *)
       if isreg (h_type h) then
         match copyfileobj fuel (h_size h) copybs r [] with
         | (Done, data, r') => (Done, t_set base (EFile (h_mode h) data) t, r')
         | (o, data, r') => (o, t_set base (EFile 420 data) t, r')
         end
-      else
-        (* a directory here (dst an existing directory, src a directory) rebinds dst to dst/<base> for the
-           following members since /repo 1583bc4: outside the model (C22's configuration, never generated) *)
-        (Unsupported, t, r)
+      else if h_type h =? T_DIR then
+        (* tar.extract(member, dst): mkdir dst/<base>, chmod; run_loop then rebinds dst (see [rebinds]) *)
+        match t_get base t with
+        | Some (EFile _ _) => (Unsupported, t, r)
+        | Some (ELink _) => (Unsupported, t, r)
+        | _ => (Done, t_set base (EDir (h_mode h)) t, r)
+        end
+      else (Unsupported, t, r)
     else if isreg (h_type h) then
       (* extractfile + read loop, then chmod *)
-      match rel_under base (h_name h) with
+      match relp reb base (h_name h) with
       | None => (Unsupported, t, r)
       | Some p =>
           let parent_ok := match p with [] => true | _ => t_isdir (dirname p) t end in
@@ -462,7 +479,7 @@ Section Parser.
                end
       end
     else if h_type h =? T_DIR then
-      match rel_under base (h_name h) with
+      match relp reb base (h_name h) with
       | None => (Unsupported, t, r)
       | Some p =>
           match makedirs (S (length p)) (match p with [] => [] | _ => dirname p end) t with
@@ -477,7 +494,7 @@ Section Parser.
       end
     else if h_type h =? T_SYM then
       (* makelink: os.symlink(tarinfo.linkname, dst/<rel name>); the link name is NOT rewritten (35e756c) *)
-      match rel_under base (h_name h) with
+      match relp reb base (h_name h) with
       | None | Some [] => (Unsupported, t, r)
       | Some p =>
           match makedirs (S (length p)) (dirname p) t with
@@ -492,7 +509,7 @@ Section Parser.
     else if h_type h =? T_LNK then
       (* linkname := relpath(linkname, basename(src)); os.link(dst/<rel link>, dst/<rel name>); chmod acts on
          the shared inode.  A target that is not an already extracted regular file is outside the model *)
-      match rel_under base (h_name h), rel_under base (h_link h) with
+      match relp reb base (h_name h), relp reb base (h_link h) with
       | Some (x :: p'), Some q =>
           let p := x :: p' in
           match makedirs (S (length p)) (dirname p) t with
@@ -511,9 +528,14 @@ Section Parser.
       end
     else (Unsupported, t, r).
 
+  Definition extract_member := extract_member_g false.
+  (* extract_tar_stream: "if member.isdir(): dst = os.path.join(dst, member.path)" in the first branch *)
+  Definition rebinds (reb : bool) (base : bytes) (h : hdr) (t : tree) : bool :=
+    negb reb && t_isdir [] t && bytes_eqb (h_name h) base && (h_type h =? T_DIR).
+
   (* async for member in tar: ...  *)
   Fixpoint run_loop (fuel : nat) (base : bytes) (bufsz : option N) (offset : N) (r : rst) (t : tree)
-    : outcome * tree :=
+           (reb : bool) : outcome * tree :=
     match fuel with
     | O => (Hang, t)
     | S f =>
@@ -523,8 +545,8 @@ Section Parser.
         | (NxUnsup, _) => (Unsupported, t)
         | (NxFuel, _) => (Hang, t)
         | (NxMem h od no, r1) =>
-            match extract_member fuel base bufsz h od r1 t with
-            | (Done, t', r2) => run_loop f base bufsz no r2 t'
+            match extract_member_g reb fuel base bufsz h od r1 t with
+            | (Done, t', r2) => run_loop f base bufsz no r2 t' (reb || rebinds reb base h t)
             | (o, t', _) => (o, t')
             end
         end
@@ -561,11 +583,11 @@ Definition init_tree (dst_isdir : bool) : tree := if dst_isdir then [([], EDir 4
 Definition run_chunked (legacy : bool) (base : bytes) (dst_isdir : bool) (bufsz : option N) (s : stream)
   : outcome * tree :=
   run_loop stream tread (if legacy then skip_old else skip_new) legacy
-           (S (length (concat s))) base bufsz 0 {| pos := 0; und := s |} (init_tree dst_isdir).
+           (S (length (concat s))) base bufsz 0 {| pos := 0; und := s |} (init_tree dst_isdir) false.
 (* the reference: the same bytes delivered at once *)
 Definition run_flat (base : bytes) (dst_isdir : bool) (bufsz : option N) (d : bytes) : outcome * tree :=
   run_loop bytes fread fskip false (S (length d)) base bufsz 0 {| pos := 0; und := d |}
-           (init_tree dst_isdir).
+           (init_tree dst_isdir) false.
 Definition members_chunked (legacy : bool) (s : stream) : outcome * list (hdr * bytes) :=
   members stream tread (if legacy then skip_old else skip_new) legacy
           (S (length (concat s))) 0 {| pos := 0; und := s |} [].
